@@ -68,6 +68,25 @@ CLAIMED.update({
   ref="DESIGN.md 4/C05"),
 })
 
+CLAIMED.update({
+ "C03": dict(
+  text="Deductive proof that every derived-field comparison of validateBlock / ValidateHeader / validateBlockParentHash is in force: for each error "
+       "return (identified by its message) the stated mismatch between the header field and the value the code recomputed implies that the error is "
+       "returned (evaluated at the guarding test), the test lies on every path to a successful return reachable from it, errors of ValidateHeader, "
+       "processTxs, the VRF proof verification and key parsing are never dropped, height and parent link are exact (uint64 arithmetic).",
+  note="Callees are opaque (their transitive write set is havocked; their results are the 'recomputed values'): that the recomputed values themselves are "
+       "right is C01/C04. Side-effect freedom of rejection (rollback in AddBlock) and the timestamp window are not yet under contract. "
+       "Preconditions: a block that passed Block.IsValid.",
+  ref="DESIGN.md 4/C03"),
+ "C08": dict(
+  text="Deductive proof that ValidateSubChain returns success only for a fork whose tip bundle carries a non-empty certificate, and that applyFork hands "
+       "only existing certificates to the certificate store (no crash after the rollback) for every fork ValidateSubChain can accept. Two genuine "
+       "defects found by failing obligations, replayed on the real code and fixed (empty tip certificate accepted; nil intermediate certificate crashed applyFork).",
+  note="Trusted: ResetTo/AddBlock/WriteCertificate do not touch the resolver or the offered bundles. Per-block validation inside the loop, the fork "
+       "weight rule (checkForkSize) and 'adoption equals a clean sync' are not decided here.",
+  ref="DESIGN.md 4/C08"),
+})
+
 PENDING = {
 }
 
